@@ -83,6 +83,7 @@ def _job(args):
             st = h[p["step"]] if 0 < p.get("step", -1) < len(h) else {}
             out.append({"cls": spec_name, "aspect": p["aspect"], "detail": p["detail"], "step": p.get("step"),
                         "buffered": buffered, "child_handle": p.get("child_handle"),
+                        "inner_exit": p.get("nested_inner_context_left_after_step"),
                         "foreign_store": (p.get("first_toucher") is not None and p.get("handle_owner") is not None
                                           and p.get("first_toucher") != p.get("handle_owner")),
                         "op": (st.get("op") or {}).get("op", st.get("a")), "handle": st.get("h"),
